@@ -68,6 +68,11 @@ def extract():
 
 def run(ctx):
     rnd = random.Random(ctx.seed)
+    # which decoder serves a record is a function of the fed object's OWN code table (spec/Dispatch_MC.tla): design
+    # model-checked with its misplaced-memo variants, behaviours replayed on real parser and dict objects
+    from . import dispatch
+    dispatch.model_check(ctx, ['memoOnClass'])
+    dispatch.run(ctx)
     ctx.expect_ok(run_tlc('Tables_MC', MC_CFG, ctx.workdir, name='tables_design', timeout=600))
     conf, handlers = extract()
     path = os.path.join(ctx.workdir, 'tables.json')
